@@ -231,14 +231,19 @@ static bool apply(World &w, const std::string &tok)
   return false;
 }
 
-template <typename T>
-static char cmp(const IntrusivePtr<T> &a, const IntrusivePtr<T> &b)
+// all six comparisons between two handles, of the same or of different static types (both operand
+// orders); the reference is the identity / std::less order of the objects' Base subobjects, i.e.
+// after the derived-to-base conversion
+template <typename A, typename B2>
+static char cmp(const IntrusivePtr<A> &a, const IntrusivePtr<B2> &b)
 {
-  bool eq = (a == b), ne = (a != b), lt = (a < b), gt = (b < a);
-  bool same = (a.ptr == b.ptr);
-  bool wantlt = std::less<T *>()(a.ptr, b.ptr), wantgt = std::less<T *>()(b.ptr, a.ptr);
-  if (same) return (eq && !ne && !lt && !gt) ? 'e' : 'X';
-  return (!eq && ne && lt == wantlt && gt == wantgt && lt != gt) ? 'n' : 'X';
+  bool eq1 = (a == b), eq2 = (b == a), ne1 = (a != b), ne2 = (b != a), lt = (a < b), gt = (b < a);
+  const Base *pa = a.ptr;
+  const Base *pb = b.ptr;
+  bool same = (pa == pb);
+  bool wantlt = std::less<const Base *>()(pa, pb), wantgt = std::less<const Base *>()(pb, pa);
+  if (same) return (eq1 && eq2 && !ne1 && !ne2 && !lt && !gt) ? 'e' : 'X';
+  return (!eq1 && !eq2 && ne1 && ne2 && lt == wantlt && gt == wantgt && lt != gt) ? 'n' : 'X';
 }
 
 static std::string observe(World &w)
@@ -272,8 +277,10 @@ static std::string observe(World &w)
   os << '|';
   for (int a = 0; a < n; a++)
     for (int b = a + 1; b < n; b++) {
-      if (!w.live(a) || !w.live(b) || w.isB(a) != w.isB(b)) continue;
-      os << (w.isB(a) ? cmp(w.hb[a].h(), w.hb[b].h()) : cmp(w.hd[a - w.NB].h(), w.hd[b - w.NB].h()));
+      if (!w.live(a) || !w.live(b)) continue;
+      if (w.isB(a) && w.isB(b)) os << cmp(w.hb[a].h(), w.hb[b].h());
+      else if (!w.isB(a) && !w.isB(b)) os << cmp(w.hd[a - w.NB].h(), w.hd[b - w.NB].h());
+      else os << cmp(w.hb[a].h(), w.hd[b - w.NB].h());   // IntrusivePtr<Base> against IntrusivePtr<Derived> (a < b: a is the Base handle)
     }
   return os.str();
 }
